@@ -567,7 +567,7 @@ def cases(ctx):
     for n, _ in lensgen.sample_classes():
         out.append({'sample': n, 'ops': {'max_full': 12 if ctx.quick() else 60, 'names': ctx.rng.sample(ARR, 2)},
                     'shift_stop_to': ctx.rng.randint(0, 30), 'real': True})
-    n = 300 if ctx.quick() else 20000
+    n = 300 if ctx.quick() else 7000
     for i in range(n):
         rng = ctx.rng
         stop = rng.choice(['first', 'interior', 'last', 'any'])
